@@ -49,6 +49,7 @@ PROPS = {
             {"name": "c03.bitflips", "pkg": BPV7, "test": "TestVerifC03BitFlips", "shards_t": 16},
             {"name": "c03.bursts", "pkg": BPV7, "test": "TestVerifC03Bursts", "shards_t": 16},
             {"name": "c03.accept-only-if", "pkg": BPV7, "test": "TestVerifC03AcceptOnlyIf", "shards_t": 8},
+            {"name": "c03.head-widths", "pkg": BPV7, "test": "TestVerifC03HeadWidths", "shards_t": 16, "shards_q": 2},
         ],
     },
     "C02": {
